@@ -210,7 +210,8 @@ def run(
         f.write(cfg_text)
     meta = os.path.join(d, "meta")
     shutil.rmtree(meta, ignore_errors=True)
-    cmd = ["java", "-XX:+UseParallelGC", "-Xmx" + heap, "-DTLA-Library=" + SPECS]
+    # (TLC leaves an empty tlc-* directory in java.io.tmpdir per run: keep them in our scratch)
+    cmd = ["java", "-XX:+UseParallelGC", "-Xmx" + heap, "-DTLA-Library=" + SPECS, "-Djava.io.tmpdir=" + d]
     spec_path = os.path.join(SPECS, spec + ".tla")
     if module_text is not None:
         # a generated root module (constants as definitions) that EXTENDS modules in specs/
